@@ -117,6 +117,11 @@ def check_C01(tier, seed):
         regs = F.gen_registries(cfg, out)
         scs = scripts_from_universe(regs, n, ar, rng, policies, cfg.replace(".cfg", ""), ("T", "CT"))
         F.execute_and_validate("C01", exe, scs, out, "c01-" + cfg, TCFG)
+    # the 5-class lattice on which 'more specific' is not transitive: every definition set <= 3
+    regs = F.gen_registries("GenRegD2.cfg", out)
+    d2 = scripts_from_universe(regs, 5, 2, rng, ["fast", "vec", "map", "ind"] if tier == "quick" else policies, "GenRegD2", ("T", "CT"),
+                               orders=lambda reg, r: [None, r.randrange(1 << 30)])
+    F.execute_and_validate("C01", exe, d2, out, "c01-d2", TCFG)
     scs = random_scripts(rng, 300 if tier == "quick" else 6000, policies, ("T", "CT"))
     F.execute_and_validate("C01", exe, scs, out, "c01-rnd", TCFG)
     if scs:
@@ -732,12 +737,15 @@ def check_C14(tier, seed):
     out = F.Outcome("C14")
     rng = random.Random(seed)
     exe = C.build_dyn()
+    # every facet implementation is paired with itself in another policy (two hashed, two unhashed vectors,
+    # two maps, two indirect, two deferred ...): state shared by mistake between instantiations shows there
     pairs = [["fast", "chk"], ["vec", "map"], ["dbg", "rel"], ["ind", "indfast"], ["stdd", "stdr"], ["prj", "vec"],
-             ["rem", "dbg"], ["dfr", "dfrh"], ["old", "thr"]]
+             ["rem", "dbg"], ["dfr", "dfrh"], ["old", "thr"], ["map", "prjmap"], ["stdmap", "map"], ["vec", "indvec"],
+             ["fast", "thr"], ["chk", "ind"]]
     hs = gen_histories("Yomm2MC_two.cfg", out)
     scs = [S.history_script("mc2-%d" % i, pairs, h, npol=2, observe_every_step=True, shape_k=i) for i, h in enumerate(hs)]
     F.execute_and_validate("C14", exe, scs, out, "c14-mc", TCFG)
-    triples = [["fast", "vec", "map"], ["dbg", "rel", "rem"], ["ind", "stdd", "prj"]]
+    triples = [["fast", "vec", "map"], ["dbg", "rel", "rem"], ["ind", "stdd", "prj"], ["map", "prjmap", "stdmap"]]
     scs = []
     for i in range(120 if tier == "quick" else 2500):
         npol = rng.choice([2, 2, 3])
@@ -1396,4 +1404,110 @@ def check_C19(tier, seed):
                     extra_cov={"name_sets_from_tlc": len(sets)})
 
 
-CHECKS = {"C19": check_C19, "C05": check_C05, "C18": check_C18, "C09": check_C09, "C15": check_C15, "C07": check_C07, "C10": check_C10, "C14": check_C14, "C04": check_C04, "C08": check_C08, "C01": check_C01, "C02": check_C02, "C03": check_C03, "C06": check_C06, "C17": check_C17}
+# ---------------------------------------------------------------------------
+STATIC_SHAPES = {1: ["sV"], 2: ["sVV", "sVNV", "sNVVN"], 3: ["sVVV", "sVNVNV", "sPVP"], 4: ["sVVVV"]}
+
+
+def offsets_script(rng, sid, policies, n=None):
+    """A registry whose methods are compiled with generated static offsets: after update the generator
+    writes the offsets, the program loads them, dispatches; then single numbers are perturbed."""
+    n = n or rng.randrange(3, 9)
+    classes, edges, _, _, abstract, kind = S.random_registry(rng, n, 0, 1, 0)
+    anc = S.anc_closure(edges, classes)
+    cov = {c: [x for x in classes if c in anc[x]] for c in classes}
+    s = S.Script(sid, [[p] for p in policies])
+    for c, bases in S.presentation(rng.choice(["direct", "complete", "random"]), classes, edges, rng):
+        s.cls(c, bases)
+    methods = []
+    used = set()
+    m = 1
+    for _ in range(rng.randrange(1, 5)):
+        ar = rng.choice([1, 2, 2, 3, 3, 4])
+        cands = [x for x in STATIC_SHAPES[ar] if x not in used]
+        if not cands:
+            continue
+        shape = rng.choice(cands)
+        used.add(shape)
+        vp = [rng.choice(classes) for _ in range(ar)]
+        s.method(m, shape, vp)
+        for d in range(rng.randrange(0, 4)):
+            s.defn(m, d, [rng.choice(cov[v]) for v in vp])
+        methods.append((m, shape, vp))
+        m += 1
+    # ordinary methods next to them (they shift slots)
+    for _ in range(rng.randrange(0, 3)):
+        vp = [rng.choice(classes)]
+        s.method(m, "V", vp)
+        s.defn(m, 0, [rng.choice(cov[vp[0]])])
+        methods.append((m, "V", vp))
+        m += 1
+    s.update()
+    s.layout()
+    s.write_offsets()
+    for mm, shape, vp in methods:
+        if shape.startswith("s"):
+            s.load_offsets(mm)
+            s.table(mm)
+            s.ctable(mm)
+        else:
+            s.table(mm)
+    # "rejects any other": one number at a time
+    for mm, shape, vp in methods:
+        if not shape.startswith("s"):
+            continue
+        ar = len(vp)
+        for _ in range(2):
+            which = rng.choice([0, 1]) if ar > 1 else 0
+            idx = rng.randrange(ar if which == 0 else ar - 1)
+            s.load_offsets(mm, which, idx, rng.choice([1, 2, 3]))
+            s.table(mm)
+        s.load_offsets(mm)
+        s.table(mm)
+    # a second update (a method added): the generator is run again, offsets may have moved
+    vp = [rng.choice(classes)]
+    s.method(m, "NV", vp)
+    s.defn(m, 0, [rng.choice(cov[vp[0]])])
+    s.update()
+    s.layout()
+    s.write_offsets()
+    for mm, shape, vp in methods:
+        if shape.startswith("s"):
+            s.load_offsets(mm)
+            s.table(mm)
+    return s
+
+
+def check_C12(tier, seed):
+    TCFG = "TraceYomm2_dispatch.cfg"
+    t0 = time.time()
+    out = F.Outcome("C12")
+    rng = random.Random(seed)
+    exe = C.build_dyn()
+    F.model_check(out, "Offsets.tla", "Offsets.cfg")
+    F.model_check(out, "Offsets.tla", "Offsets_interleaved.cfg", expect_violation=True)
+    policies = ["vec", "fast", "map", "chk", "ind", "dbg", "rem", "stdd", "stdr"]
+    scs = [offsets_script(rng, "off-%d" % i, policies) for i in range(400 if tier == "quick" else 8000)]
+    F.execute_and_validate("C12", exe, scs, out, "c12", TCFG)
+
+    def shift(ev):
+        for row in ev["rows"]:
+            if row[1]:
+                row[1][-1] += 1
+                return True
+        return False
+    F.selftest_corruption(exe, scs[0], out, mutate_first("offsets", shift), "one number altered in the recorded generator output", TCFG)
+    c = out.action_counts
+    if not c.get("offsets") or not c.get("sload"):
+        raise C.ToolFailure("vacuous: generator output never recorded")
+    return F.report("C12", tier, seed, out, t0, LEVEL,
+                    rule="a case = one registry with methods of arity 1..4 compiled with static offsets (mutable static_offsets<> specialisations), under "
+                         "one policy: the numbers written by the real generator must equal the installed slots / strides position by position; loaded "
+                         "into the program they must dispatch like the run-time offsets (full outcome tables); under checked policies every single "
+                         "perturbed number must be reported as a static slot / stride error on every call; repeated after a second update; "
+                         "distinct_nontrivial = distinct scripts",
+                    assumptions=ASSUME_DYN + ["the generated header is emulated by static_offsets<> specialisations with mutable arrays filled with the parsed numbers; "
+                                              "compiling the emitted text is not part of this check"],
+                    extra_cov={"policies": policies})
+
+
+CHECKS = {"C12": check_C12, "C19": check_C19, "C05": check_C05, "C18": check_C18, "C09": check_C09, "C15": check_C15, "C07": check_C07, "C10": check_C10, "C14": check_C14, "C04": check_C04, "C08": check_C08, "C01": check_C01, "C02": check_C02, "C03": check_C03, "C06": check_C06, "C17": check_C17}
